@@ -52,10 +52,53 @@ Viol(r) ==
       >>
   IN {<<conj[i][1], conj[i][2]>> : i \in {i \in 1..Len(conj) : ~conj[i][3]}}
 
+\* ---- one giant record followed by a small one: FASTA ">big d" with m sequence lines of w bytes (line i starts with
+\* "ACGT"[i % 4]), FASTQ "@big d" with a sequence of w 'A's and a quality of w 'I's; then ">next / AC" resp. "@next / AC / + / II"
+ACGT == <<65, 67, 71, 84>>
+BigHead == <<98, 105, 103, 32, 100>>
+NextHead == <<110, 101, 120, 116>>
+GiantViol(r) ==
+  LET fmt == r.fmt
+      base == IF fmt = "fasta" THEN "C01" ELSE "C02"
+      e == IF r.crlf THEN 2 ELSE 1
+      m == r.m
+      w == r.w
+      a == r.first
+      b == r.second
+      firstBytes == IF fmt = "fasta" THEN (6 + e) + m * (w + e) ELSE (6 + e) + (w + e) + (1 + e) + (w + e)
+      firstLines == IF fmt = "fasta" THEN m + 1 ELSE 4
+      faFirst == a.k = "rec" /\ a.head = BigHead /\ a.iterated = m /\ a.sum = m * w
+                 /\ \A i \in 1..Len(a.lines) : a.lines[i].len = w /\ a.lines[i].first = ACGT[(a.lines[i].i % 4) + 1]
+      faViews == a.k # "rec" \/ (a.nlines = m /\ a.len_hint = m /\ a.owned = m * w /\ a.full = m * w /\ a.raw = m * w + (m - 1) * e /\ a.last_from_back = w)
+      fqFirst == a.k = "rec" /\ a.head = BigHead /\ a.seqlen = w /\ a.quallen = w /\ a.seq_first = 65 /\ a.seq_last = 65 /\ a.qual_first = 73 /\ a.qual_last = 73
+      fqViews == a.k # "rec" \/ (a.oseqlen = w /\ a.oquallen = w)
+      second == b.k = "rec" /\ b.head = NextHead /\ (IF fmt = "fasta" THEN b.iterated = 1 /\ b.sum = 2 ELSE b.seqlen = 2 /\ b.quallen = 2)
+      conj == IF r.panic THEN << <<"C06", "panic", FALSE>> >> ELSE <<
+        <<base, "giant_record_content", IF fmt = "fasta" THEN faFirst ELSE fqFirst>>,
+        <<"C13", "giant_record_views", IF fmt = "fasta" THEN faViews ELSE fqViews>>,
+        <<base, "record_after_giant_record", second>>,
+        <<base, "end_after_last_record", r.then_none>>,
+        <<"C05", "position_of_returned_record", (r.pos1 = <<>> \/ r.pos1 = <<1, 0>>) /\ (r.pos2 = <<>> \/ r.pos2 = <<firstLines + 1, firstBytes>>)>>
+      >>
+  IN {<<conj[i][1], conj[i][2]>> : i \in {i \in 1..Len(conj) : ~conj[i][3]}}
+
+\* ---- wrapped writing of a long sequence (C10): the header line, then lines of exactly the wrap width and a last, shorter,
+\* non-empty one; joined they are the sequence
+WriteViol(r) ==
+  LET full == r.len \div r.w
+      rest == r.len % r.w
+      want == (IF full > 0 THEN << <<r.w, full>> >> ELSE <<>>) \o (IF rest > 0 THEN << <<rest, 1>> >> ELSE <<>>)
+      conj == IF r.panic THEN << <<"C10", "write_function_panicked", FALSE>> >> ELSE <<
+        <<"C10", "long_wrap_header_line", r.headline = <<62, 105, 100, 32, 100>> /\ r.ends_lf>>,
+        <<"C10", "long_wrap_roundtrip", r.joined_is_seq>>,
+        <<"C10", "long_wrap_width", r.rle = want>>
+      >>
+  IN {<<conj[i][1], conj[i][2]>> : i \in {i \in 1..Len(conj) : ~conj[i][3]}}
+
 Next == /\ l <= Len(Rec)
-        /\ LET v == Viol(Rec[l]) IN
+        /\ LET v == IF Rec[l].ev = "giant" THEN GiantViol(Rec[l]) ELSE IF Rec[l].ev = "longw" THEN WriteViol(Rec[l]) ELSE Viol(Rec[l]) IN
              v # {} => PrintT(<<"MISMATCH", ToJson([kind |-> "long", line |-> l, run |-> l, props |-> {x[1] : x \in v}, why |-> {x[2] : x \in v},
-                                                   extra |-> [fmt |-> Rec[l].fmt, n |-> Rec[l].n, cap |-> Rec[l].cap, mode |-> Rec[l].mode]])>>)
+                                                   extra |-> [fmt |-> Rec[l].fmt, cap |-> Rec[l].cap, ev |-> Rec[l].ev]])>>)
         /\ l' = l + 1
 Spec == Init /\ [][Next]_l
 Done == IF TLCGet("stats").diameter - 1 = Len(Rec) THEN TRUE ELSE Print(<<"NOT-CONSUMED", TLCGet("stats").diameter, Len(Rec)>>, FALSE)
